@@ -27,7 +27,7 @@ def apply_write(g, model, addr, data, ctxinfo):
     """Run one write on game and model; raise Violation on disagreement. Returns labels."""
     before = cartgen.flat(g)
     case = {'prior_seed': ctxinfo.get('prior_seed'), 'history': ctxinfo.get('history'),
-            'addr': addr, 'data': bytes(data)}
+            'addr': addr, 'data': bytes(data), 'origin': ctxinfo.get('origin', 'inplace')}
     overflow = addr + len(data) > END
     try:
         g.write_cart_data(ctxinfo.get('wrap', bytes)(data), addr)
@@ -80,14 +80,60 @@ def nontrivial(labs):
     return 'empty' not in labs and bool(labs)
 
 
-def one_case(ctx, prior_seed, addr, data, wrap=bytes):
+ORIGINS = ('inplace', 'replaced', 'from_p8', 'from_png')
+_label_rows = None
+
+
+def game_from(mem, origin):
+    """A Game holding `mem`, built the way real carts come about: filled in place, sections assigned after
+    make_empty_game (as build and the .p8 reader do), loaded from a .p8 file, loaded from a .p8.png file.
+    Returns (game, memory as loaded)."""
+    global _label_rows
+    import io
+    from vlib import reffmt, refpng
+    if origin == 'inplace':
+        return cartgen.make_game(mem), bytes(mem)
+    if origin == 'replaced':
+        from pico8.game import game as game_mod
+        from pico8.gfx.gfx import Gfx
+        from pico8.gff.gff import Gff
+        from pico8.map.map import Map
+        from pico8.sfx.sfx import Sfx
+        from pico8.music.music import Music
+        g = game_mod.Game.make_empty_game()
+        g.gfx = Gfx.from_bytes(bytearray(mem[0x0000:0x2000]), version=8)
+        g.map = Map.from_bytes(bytearray(mem[0x2000:0x3000]), version=8, gfx=g.gfx)
+        g.gff = Gff.from_bytes(bytearray(mem[0x3000:0x3100]), version=8)
+        g.music = Music.from_bytes(bytearray(mem[0x3100:0x3200]), version=8)
+        g.sfx = Sfx.from_bytes(bytearray(mem[0x3200:0x4300]), version=8)
+        return g, bytes(mem)
+    if origin == 'from_p8':
+        from pico8.game.formatter.p8 import P8Formatter
+        loaded = mem[:0x3100] + reffmt.music_mask(mem[0x3100:0x3200]) + mem[0x3200:]
+        g = P8Formatter.from_file(io.BytesIO(reffmt.write_p8(8, b'x=1\n', mem)))
+        return g, bytes(loaded)
+    from pico8.game.formatter.p8png import P8PNGFormatter, EMPTY_LABEL_FNAME
+    if _label_rows is None:
+        _label_rows = refpng.decode(open(EMPTY_LABEL_FNAME, 'rb').read())[3]
+    g = P8PNGFormatter.from_file(io.BytesIO(reffmt.write_p8png(_label_rows, mem, b'x=1\n', 8)))
+    return g, bytes(mem)
+
+
+def one_case(ctx, prior_seed, addr, data, wrap=bytes, origin='inplace'):
     mem, _modes = cartgen.memory_from_seed(prior_seed)
-    g = cartgen.make_game(mem)
+    try:
+        g, mem = game_from(mem, origin)
+    except Exception as e:
+        raise Violation('cannot obtain a cart (%s): %r' % (origin, e), {'prior_seed': prior_seed, 'origin': origin}, 'setup')
+    if cartgen.flat(g) != mem:
+        raise Violation('cart obtained via %s does not hold the expected memory' % origin,
+                        {'prior_seed': prior_seed, 'origin': origin}, 'setup')
     model = bytearray(mem)
     labs = labels_for(addr, len(data))
-    apply_write(g, model, addr, data, {'prior_seed': prior_seed, 'wrap': wrap})
+    apply_write(g, model, addr, data, {'prior_seed': prior_seed, 'wrap': wrap, 'origin': origin})
     if ctx is not None:
-        ctx.stats.case((addr, bytes(data), prior_seed), nontrivial(labs),
+        labs = labs + ['origin_' + origin]
+        ctx.stats.case((addr, bytes(data), prior_seed, origin), nontrivial(labs),
                        {'addr': hex(addr), 'len': len(data), 'data': show(data, 40), 'labels': labs},
                        labs)
 
@@ -109,9 +155,10 @@ def part_boundary(ctx):
 
     def body(v):
         prior_seed, dseed = v
-        for (s, e) in pairs:
+        for k, (s, e) in enumerate(pairs):
             data = expand(dseed + bytes([s & 255, e & 255]), e - s)
-            one_case(ctx, prior_seed, s, data, bytes if (s + e) % 2 else bytearray)
+            origin = 'inplace' if k % 5 else ORIGINS[1 + (k // 5 + dseed[0]) % 3]
+            one_case(ctx, prior_seed, s, data, bytes if (s + e) % 2 else bytearray, origin)
     ctx.hyp('boundary', st.tuples(st.binary(min_size=24, max_size=24), st.binary(min_size=4, max_size=4)),
             body, max_examples=3 if ctx.quick else 12)
 
@@ -138,7 +185,7 @@ def random_write(draw):
 def part_random(ctx):
     def body(v):
         prior_seed, (s, n, dseed) = v
-        one_case(ctx, prior_seed, s, expand(dseed, n))
+        one_case(ctx, prior_seed, s, expand(dseed, n), origin=ORIGINS[dseed[1] % 4] if dseed[0] % 3 == 0 else 'inplace')
     ctx.hyp('random', st.tuples(st.binary(min_size=24, max_size=24), random_write()), body,
             max_examples=400 if ctx.quick else 3000)
 
@@ -147,11 +194,12 @@ def part_history(ctx):
     stats = ctx.stats
 
     class Writes(RuleBasedStateMachine):
-        @initialize(prior_seed=st.binary(min_size=24, max_size=24))
-        def init(self, prior_seed):
+        @initialize(prior_seed=st.binary(min_size=24, max_size=24), origin=st.sampled_from(ORIGINS))
+        def init(self, prior_seed, origin):
             mem, _ = cartgen.memory_from_seed(prior_seed)
             self.prior_seed = prior_seed
-            self.g = cartgen.make_game(mem)
+            self.origin = origin
+            self.g, mem = game_from(mem, origin)
             self.model = bytearray(mem)
             self.history = []
             self.labs = set()
@@ -163,7 +211,7 @@ def part_history(ctx):
             self.history.append([s, n, dseed])
             self.labs.update(labels_for(s, n))
             apply_write(self.g, self.model, s, data,
-                        {'prior_seed': self.prior_seed, 'history': list(self.history)})
+                        {'prior_seed': self.prior_seed, 'history': list(self.history), 'origin': self.origin})
 
         def teardown(self):
             if getattr(self, 'history', None):
@@ -184,22 +232,27 @@ def parts(tier):
 
 def replay(case):
     prior_seed = case['prior_seed']
+    origin = case.get('origin', 'inplace')
+    if 'addr' not in case and not case.get('history'):
+        one_case(None, prior_seed, 0, b'', origin=origin)
+        return
     if case.get('history'):
         mem, _ = cartgen.memory_from_seed(prior_seed)
-        g = cartgen.make_game(mem)
+        g, mem = game_from(mem, origin)
         model = bytearray(mem)
         hist = []
         for s, n, dseed in case['history']:
             hist.append([s, n, dseed])
-            apply_write(g, model, s, expand(dseed, n), {'prior_seed': prior_seed, 'history': list(hist)})
+            apply_write(g, model, s, expand(dseed, n), {'prior_seed': prior_seed, 'history': list(hist), 'origin': origin})
         return
-    one_case(None, prior_seed, case['addr'], case['data'])
-    one_case(None, prior_seed, case['addr'], case['data'], bytearray)
+    one_case(None, prior_seed, case['addr'], case['data'], origin=origin)
+    one_case(None, prior_seed, case['addr'], case['data'], bytearray, origin=origin)
 
 
 def vacuity(total, tier):
     msgs = []
-    for lab in ('starts_on_boundary', 'ends_on_boundary', 'spans_regions', 'overflow'):
+    for lab in ('starts_on_boundary', 'ends_on_boundary', 'spans_regions', 'overflow', 'origin_from_p8', 'origin_from_png',
+                'origin_replaced'):
         if total.classes.get(lab, 0) < 20:
             msgs.append('class %s seen only %d times' % (lab, total.classes.get(lab, 0)))
     return msgs
